@@ -336,7 +336,11 @@ func startDaemonListening(dir, nodeID string, env []string) (*daemon, int, error
 			}
 			time.Sleep(30 * time.Millisecond)
 		}
-		if ok && d.alive() {
+		if ok {
+			// the port may be answered by somebody else's listener while our daemon is about to give up on its bind
+			time.Sleep(250 * time.Millisecond)
+		}
+		if ok && d.alive() && !strings.Contains(d.logTail(), "address already in use") {
 			return d, port, nil
 		}
 		lastErr = fmt.Errorf("daemon does not listen on port %d: %s", port, trunc(d.logTail(), 300))
